@@ -49,8 +49,8 @@ def run(ctx: Ctx) -> None:
         gc = A("g1", "collector", [{"t": "gc", "grace": 1000}])
         base = dict(data_age_ms=10000, orphans=2, init_snaps=3)
         scns = [
-            (Scenario("gcf-inflight-append", [A("c1", "committer", [{"t": "append"}]), gc], **base), [0, 8, 12, 30] if not quick else [12, 30]),
-            (Scenario("gcf-inflight-delete", [A("c1", "committer", [{"t": "delete", "refs": [("init", 1)]}]), gc], **base), [0, 14, 20] if not quick else [20]),
+            (Scenario("gcf-inflight-append", [A("c1", "committer", [{"t": "append"}]), gc], **base), list(range(0, 44, 4)) + [30] if not quick else [12, 30]),
+            (Scenario("gcf-inflight-delete", [A("c1", "committer", [{"t": "delete", "refs": [("init", 1)]}]), gc], **base), list(range(0, 36, 4)) + [20] if not quick else [20]),
             (Scenario("gcf-damaged-list-missing", [gc], damage=("list", "missing"), **base), [0]),
             (Scenario("gcf-damaged-list-garbage", [gc], damage=("list", "garbage"), **base), [0]),
             (Scenario("gcf-damaged-manifest-garbage", [gc], damage=("man", "garbage"), **base), [0]),
